@@ -300,6 +300,8 @@ IdleTxn == [pc |-> "idle", c |-> None, setup |-> FALSE,
             bufs |-> EmptyFn,            \* column name (or "row") -> sequence of operations
             reserved |-> {},             \* offsets this transaction has reserved and still holds
             dirty |-> {},                \* blocks still to commit
+            pend |-> {},                 \* keys for which this transaction has buffered a key write
+            kop |-> [fn |-> "none", k |-> "", found |-> FALSE, o |-> 0, n |-> 0],  \* key operation in progress
             cur |-> -1,                  \* block whose latch is held
             fired |-> EmptyFn,           \* (observation) trigger calls made by the last Apply: trigger -> sequence
             replay |-> FALSE]            \* the buffers were handed in by Replay / Restore
@@ -338,7 +340,8 @@ Reserve(t, o) ==
   /\ txn[t].pc = "body"
   /\ LET S == Coll(t) IN o \in Offsets /\ o \notin S.fill /\ ~InFiller(S.filler, o)
   /\ st' = [st EXCEPT ![txn[t].c].fill = @ \cup {o}]
-  /\ txn' = [txn EXCEPT ![t].bufs = AddOp(@, "row", Op("ins", o, 0)), ![t].reserved = @ \cup {o}]
+  /\ txn' = [txn EXCEPT ![t].bufs = AddOp(@, "row", Op("ins", o, 0)), ![t].reserved = @ \cup {o},
+                        ![t].kop = [@ EXCEPT !.n = @ + 1]]
   /\ UNCHANGED <<used, files, dev>>
 
 \* the insert callback returned an error: the offset is released, the buffers keep what was written
@@ -353,7 +356,8 @@ InsFail(t, o) ==
 \* a buffered write: put / mrg into column n at offset o
 Write(t, n, k, o, v) ==
   /\ txn[t].pc = "body" /\ n \in DOMAIN Coll(t).reg /\ k \in {"put", "mrg"}
-  /\ txn' = [txn EXCEPT ![t].bufs = AddOp(@, n, Op(k, o, v))]
+  /\ txn' = [txn EXCEPT ![t].bufs = AddOp(@, n, Op(k, o, v)),
+                        ![t].pend = IF Coll(t).reg[n].k = "key" THEN @ \cup {v} ELSE @]
   /\ UNCHANGED <<st, used, files, dev>>
 
 \* a buffered row delete
@@ -434,6 +438,51 @@ Unlatch(t) ==
      txn' = IF rest = {} THEN [txn EXCEPT ![t] = [IdleTxn EXCEPT !.pc = "done", !.c = txn[t].c]]
             ELSE [txn EXCEPT ![t].pc = "commit", ![t].dirty = rest, ![t].cur = -1]
   /\ UNCHANGED <<used, files, dev>>
+
+
+-----------------------------------------------------------------------------
+(* Primary keys.  InsertKey / UpsertKey / QueryKey / DeleteKey / SetKey first look the key up in the  *)
+(* committed key table; what follows (reserve, writes, key write, delete marker) are ordinary steps.  *)
+(* KeyCheck records the lookup, KeyEnd checks that the call did what its contract says.               *)
+
+NoKop == [fn |-> "none", k |-> "", found |-> FALSE, o |-> 0, n |-> 0]
+\* keys that transactions in flight have written or are in the middle of inserting (the key write of an
+\* InsertKey / UpsertKey is buffered only after the insert callback has returned)
+PendingKeys(c) == UNION {txn[u].pend \cup (IF txn[u].kop.fn \in {"ins", "ups"} /\ ~txn[u].kop.found THEN {txn[u].kop.k} ELSE {})
+                           : u \in {u \in Actors : txn[u].c = c /\ txn[u].pc \in {"body", "commit", "latched"}}}
+
+KeyCheck(t, fn, k, found, o) ==
+  /\ txn[t].pc = "body" /\ txn[t].kop.fn = "none"
+  /\ LET S == Coll(t)
+         committed == \E p \in S.seek : p[1] = k
+         \* lookups (QueryKey, DeleteKey) see the committed table only (own reads return committed values);
+         \* calls that would create a second holder of the key must also respect keys written by transactions in flight
+         pending == fn \in {"ins", "ups", "set"} /\ k \in PendingKeys(txn[t].c)
+     IN \E mode \in Modes("D-key-check-ignores-pending") :
+          /\ IF mode = "strict" THEN found = (committed \/ pending)
+                                ELSE (found = committed /\ ~committed /\ pending)
+          /\ committed => (found /\ <<k, o>> \in S.seek)
+          /\ dev' = IF mode = "asbuilt" THEN dev \cup {"D-key-check-ignores-pending"} ELSE dev
+  /\ txn' = [txn EXCEPT ![t].kop = [fn |-> fn, k |-> k, found |-> found, o |-> o, n |-> 0]]
+  /\ UNCHANGED <<st, used, files>>
+
+LastOp(bufs, n) == bufs[n][Len(bufs[n])]
+KeyEnd(t, err) ==
+  /\ txn[t].pc = "body" /\ txn[t].kop.fn # "none"
+  /\ LET q == txn[t].kop
+         kc == KeyCol(Coll(t))
+         b == txn[t].bufs
+         keyWritten == kc \in DOMAIN b /\ b[kc] # <<>> /\ LastOp(b, kc).k = "put" /\ LastOp(b, kc).v = q.k
+         created == q.n = 1 /\ keyWritten /\ "row" \in DOMAIN b
+                    /\ \E i \in DOMAIN b["row"] : b["row"][i].k = "ins" /\ b["row"][i].o = LastOp(b, kc).o
+     IN CASE q.fn = "ins" -> err = q.found /\ (IF q.found THEN q.n = 0 ELSE created)
+          [] q.fn = "ups" -> ~err /\ (IF q.found THEN q.n = 0 ELSE created)
+          [] q.fn = "qry" -> err = ~q.found /\ q.n = 0
+          [] q.fn = "del" -> err = ~q.found /\ q.n = 0
+                             /\ (q.found => ("row" \in DOMAIN b /\ LastOp(b, "row").k = "del" /\ LastOp(b, "row").o = q.o))
+          [] q.fn = "set" -> err = q.found /\ q.n = 0 /\ (~q.found => keyWritten)
+  /\ txn' = [txn EXCEPT ![t].kop = NoKop]
+  /\ UNCHANGED <<st, used, files, dev>>
 
 -----------------------------------------------------------------------------
 (* Replay of an emitted commit on another collection (Collection.Replay):   *)
@@ -613,7 +662,8 @@ SortCoherent ==
 
 \* C12 (state part): the key table is a bijection between keys and the live rows carrying them
 KeyCoherent ==
-  Excused({"D-write-dead-row", "D-dead-delete", "D-stale-unkey", "D-key-check-ignores-pending", "D-failed-insert-applied"}) \/
+  Excused({"D-write-dead-row", "D-dead-delete", "D-stale-unkey", "D-key-check-ignores-pending", "D-failed-insert-applied",
+           "D-replay-all-blocks"}) \/
   \A c \in Colls : (Quiescent(c) /\ NoLatch(c)) =>
     LET S == st[c]  kc == KeyCol(S) IN
     kc # None =>
